@@ -67,7 +67,10 @@ class _Ids:
 def _gen_items(rng, ids, n, simple=False):
     items = []
     kinds = ["lit", "int", "lazy", "obj", "chr"] if simple else \
-        ["lit", "str", "int", "dbl", "chr", "lazy", "lazy", "lazyp", "obj", "fn"]
+        ["lit", "str", "int", "dbl", "chr", "lazy", "lazy", "lazyp", "obj", "fn",
+         # other argument TYPES: callables that are plain functions (pointer / reference), character buffers that are
+         # larger than the text they hold, const char*, string_view, unsigned 64 bit, bool, float
+         "fptr", "fref", "cbuf", "ccbuf", "cstr", "sv", "uns", "boolv", "flt"]
     for _ in range(n):
         kind = rng.choice(kinds)
         if kind == "lit":
@@ -80,6 +83,14 @@ def _gen_items(rng, ids, n, simple=False):
             v = rng.choice([2.5, -0.125, 1e6, 3.0])
         elif kind == "chr":
             v = rng.choice(["x", ":", " "])
+        elif kind in ("cbuf", "ccbuf", "cstr", "sv"):
+            v = rng.choice(["buf", "b", "", "two words", "x=1"])
+        elif kind == "uns":
+            v = rng.choice([18446744073709551615, 4294967296, 0])
+        elif kind == "boolv":
+            v = rng.choice([0, 1])
+        elif kind == "flt":
+            v = rng.choice([2.5, -0.125, 1024.0])
         else:
             v = ids.item
         items.append({"kind": kind, "v": v, "id": ids.item})
@@ -229,8 +240,14 @@ def item_text(it):
         return "%g" % v
     if k == "chr":
         return v
-    if k in ("lazy", "fn"):
+    if k in ("lazy", "fn", "fptr", "fref"):
         return "L%d" % it["id"]
+    if k in ("cbuf", "ccbuf", "cstr", "sv"):
+        return v
+    if k in ("uns", "boolv"):
+        return str(v)
+    if k == "flt":
+        return "%g" % v
     if k == "lazyp":
         return "P%d" % it["id"]
     if k == "lazylog":
@@ -260,6 +277,24 @@ def item_cpp(it):
         return '[] { ev("LAZY %d"); return std::string("L%d"); }' % (it["id"], it["id"])
     if k == "lazyp":
         return '[]() -> const char* { ev("LAZY %d"); return "P%d"; }' % (it["id"], it["id"])
+    if k == "fptr":
+        return "&lazyfn_%d" % it["id"]
+    if k == "fref":
+        return "lazyfn_%d" % it["id"]
+    if k == "cbuf":
+        return "cbuf_%d" % it["id"]
+    if k == "ccbuf":
+        return "ccbuf_%d" % it["id"]
+    if k == "cstr":
+        return 'static_cast<const char*>("%s")' % v
+    if k == "sv":
+        return 'std::string_view("%s")' % v
+    if k == "uns":
+        return "%dULL" % v
+    if k == "boolv":
+        return "true" if v else "false"
+    if k == "flt":
+        return "%rf" % float(v)
     if k == "fn":
         return 'std::function<std::string()>([] { ev("LAZY %d"); return std::string("L%d"); })' % (it["id"], it["id"])
     if k == "lazylog":
@@ -342,7 +377,7 @@ def source(prog):
               "filter/severity_filter", "filter/and_filter", "filter/or_filter", "filter/not_filter",
               "sink/sequence"):
         A("#include <nitro/log/%s.hpp>" % h)
-    A("#include <cstdio>\n#include <functional>\n#include <iostream>\n#include <sstream>\n#include <string>\n"
+    A("#include <cstdio>\n#include <functional>\n#include <iostream>\n#include <sstream>\n#include <string>\n#include <string_view>\n"
       "#include <type_traits>")
     A("using nitro::log::severity_level;")
     A("static std::string hexs(const std::string& s) { static const char* d = \"0123456789abcdef\"; "
@@ -356,6 +391,15 @@ def source(prog):
     A("struct Failing { int id; };")
     A("static std::ostream& operator<<(std::ostream& s, const Failing& f) { ev(\"INS \" + std::to_string(f.id)); "
       "s << 'F' << f.id; s.setstate(std::ios::failbit); return s; }")
+    for lg in prog["loggers"]:
+        for st, _, _ in all_statements(lg):
+            for it in st["items"]:
+                if it["kind"] in ("fptr", "fref"):
+                    A('static std::string lazyfn_%d() { ev("LAZY %d"); return std::string("L%d"); }' % ((it["id"],) * 3))
+                elif it["kind"] == "cbuf":
+                    A('static char cbuf_%d[32] = "%s";' % (it["id"], it["v"]))
+                elif it["kind"] == "ccbuf":
+                    A('static const char ccbuf_%d[16] = "%s";' % (it["id"], it["v"]))
     A("using R = nitro::log::record<nitro::log::tag_attribute, nitro::log::message_attribute, "
       "nitro::log::severity_attribute, nitro::log::timestamp_attribute>;")
     for lg in prog["loggers"]:
@@ -430,7 +474,7 @@ def expected_events(lg, st, minsev, thr, parent=None, how=None):
     msg = ""
     failed = False
     for it in st["items"]:
-        if it["kind"] in ("lazy", "lazyp", "fn", "lazylog"):
+        if it["kind"] in ("lazy", "lazyp", "fn", "lazylog", "fptr", "fref"):
             lazy.append("LAZY %d" % it["id"])
         elif it["kind"] in ("obj", "failobj"):
             lazy.append("INS %d" % it["id"])
